@@ -30,7 +30,10 @@ Definition pre_ops (hs_called est_x : bool) : list op :=
    4 close placed between the read loop's close_notify reply and its close(false),
    5 close before any Handshake call (then Handshake is called),
    6 nothing (a delivered alert was not accepted); the later Close() is the first one,
-   7 close on a socket that does not take writes (the close_notify write runs into its limit) *)
+   7 close on a socket that does not take writes (the close_notify write runs into its limit),
+   8 / 9 / 10 the state machine fails on a received post-handshake message (the read loop is
+   released), then the peer's close_notify / a fatal alert is read / Close() is called,
+   11 Close() while the state machine is still inside the blocked ACK write (read loop parked) *)
 Definition event_ops (ev : N) (closers : nat) : list op :=
   match ev with
   | 0 => repeat SpawnClose closers
@@ -40,6 +43,10 @@ Definition event_ops (ev : N) (closers : nat) : list op :=
   | 4 => [Env ERecvCN; StepReader] ++ repeat SpawnClose closers ++ map StepUser (seq 0 closers)
   | 5 => repeat SpawnClose closers
   | 7 => Env EWrBlock :: repeat SpawnClose closers
+  | 8 => [Env (ERecvHs true); StepReader; Env ERecvCN]
+  | 9 => [Env (ERecvHs true); StepReader; Env ERecvFatal]
+  | 10 => [Env (ERecvHs true); StepReader] ++ repeat SpawnClose closers
+  | 11 => [Env EWrBlock; Env (ERecvHs true)] ++ repeat SpawnClose closers
   | _ => []
   end%N.
 
@@ -69,7 +76,7 @@ Definition e2e_ok (c : e2e_case) : bool :=
             else run (SpawnClose :: rr (S closers) 8) g3 in
   let cf := cn g4 in
   (* every Close() returned nil *)
-  forallb (N.eqb 1) close_res && (length close_res =? (if memN ev [0; 4; 5; 7]%N then closers else 0))%nat &&
+  forallb (N.eqb 1) close_res && (length close_res =? (if memN ev [0; 4; 5; 7; 10; 11]%N then closers else 0))%nat &&
   all_done (us g4) &&
   (* close_notify records on the wire *)
   (cn_x =? N.of_nat (cn_close cf + cn_reply cf))%N &&
@@ -148,4 +155,15 @@ Example e2e_ok_close_blocked_socket :
 Proof. vm_compute. reflexivity. Qed.
 Example e2e_ok_close_blocked_socket_rejects_stuck :
   e2e_ok ((7, false, false, false, true, 2), (true, false), ([9; 1], 1, 2, 0), (0, true), (1, 3, 2))%N = false.
+Proof. vm_compute. reflexivity. Qed.
+(* the state machine failed on the peer's KeyUpdate, then the peer closes: the close_notify is read
+   (closed, one reply, blocked Read = EOF); a connection that stays open is rejected (seed C16d) *)
+Example e2e_ok_failed_post_handshake_peer_close :
+  e2e_ok ((8, true, false, false, true, 0), (true, false), ([], 1, 2, 0), (1, true), (1, 3, 2))%N = true.
+Proof. vm_compute. reflexivity. Qed.
+Example e2e_ok_failed_post_handshake_rejects_deaf_reader :
+  e2e_ok ((8, true, false, false, true, 0), (true, false), ([], 1, 9, 0), (0, false), (1, 3, 2))%N = false.
+Proof. vm_compute. reflexivity. Qed.
+Example e2e_ok_failed_post_handshake_close_racing :
+  e2e_ok ((11, true, false, false, true, 2), (true, false), ([1; 1], 1, 2, 0), (0, true), (1, 3, 2))%N = true.
 Proof. vm_compute. reflexivity. Qed.
